@@ -9,6 +9,7 @@
   c05.val     E            -> <enc>  [TAB (ok V) TAB <re-enc>]   value round trip through `decVal (Op.fnSig …)`
                               (function bodies read by the operation layer, as `Value.deserialize` does);
                               V with the body document elided, JSON with sorted keys
+  c05.doc     ("encoder" JSON) -> as `serial.doc` (Drive/Serial), with nested documents re-saved (Nested.lean)
   c05.abs     (what JSON)  -> ValidationError | NoConcreteFunc
                             | ok TAB J <re-encoding of the decoded object> TAB P <projection of the document>
                               what ∈ type arg param poly value op ;  direction (B) on one document
@@ -20,6 +21,8 @@ import HugrVerif.Inhabits
 import HugrVerif.Proofs.C05
 import HugrVerif.Proofs.C05ProjOps
 import HugrVerif.Drive.Val
+import HugrVerif.Drive.Serial
+import HugrVerif.Nested
 
 namespace HugrVerif.Drive.C05
 open HugrVerif HugrVerif.Bridge HugrVerif.Codec HugrVerif.StdConsts
@@ -116,12 +119,35 @@ def handleAbs (p : Sexp) : String :=
       | _ => "!bad-payload"
   | _ => "!bad-payload"
 
+/-- `serial.doc` with nested documents handled: the body of every function constant is re-saved when
+    its node is decoded (`Nested.codec`), as `FunctionValue.deserialize` / `Function._to_serial` do. -/
+def handleDoc (payload : Sexp) : String :=
+  match payload with
+  | .list [.str enc, docS] =>
+    match jsonOfSexp docS with
+    | none => "!bad-payload"
+    | some doc =>
+      let fuel := Drive.Serial.jsonSize doc + 8
+      let c := Nested.codec 6 fuel
+      let opJ : Op → Nat → Json := fun op i =>
+        match Op.encOp op i with
+        | .ok j => j
+        | .error e => .obj [("error", .str (Serial.opErrName e))]
+      match Serial.loadJson c doc with
+      | .error e => jsonText (.arr [Drive.Serial.errJson e, .null, .null])
+      | .ok s =>
+        match Serial.toJson c enc s with
+        | .error e => jsonText (.arr [.str "ok", Drive.Serial.errJson e, Drive.Serial.snapshot opJ s])
+        | .ok doc2 => jsonText (.arr [.str "ok", doc2, Drive.Serial.snapshot opJ s])
+  | _ => "!bad-payload"
+
 def handle (stream : String) (p : Sexp) : Option String :=
   match stream with
   | "c05.same" => some (handleSame p)
   | "c05.valeq" => some (handleValEq p)
   | "c05.val" => some (handleVal p)
   | "c05.abs" => some (handleAbs p)
+  | "c05.doc" => some (handleDoc p)
   | _ => none
 
 end HugrVerif.Drive.C05
